@@ -279,6 +279,7 @@ def py_monitors(sc, trace, final=None):
     teardown_since_summary = 0
     pending_rows = []
     collected = []
+    node_group = {}
     for i, ev in enumerate(trace):
         k = ev["k"]
         if k == "create":
@@ -303,6 +304,11 @@ def py_monitors(sc, trace, final=None):
             if ev["index"] in indices:
                 probs.append(("C01", "batch-index-reused", f"batch index {ev['index']} used twice", i))
             indices[ev["index"]] = i
+            if ev["ok"] and isinstance(ev.get("group"), str):
+                node_group[ev["id"]] = ev["group"]
+            for n, _ in ev["jobs"]:
+                if n in rows and rows[n][1] == "canceled":
+                    probs.append(("C01", "canceled-job-handed-to-hpc", f"job {n} was canceled (result recorded) and is now placed in batch {ev['index']}", i))
             if ev["ok"]:
                 for n, _ in ev["jobs"]:
                     if n in handed:
@@ -424,6 +430,8 @@ def py_monitors(sc, trace, final=None):
                     probs.append(("C16", "node-setup-late", f"node setup after a job started on {nd}", i))
                 if not ev["env"].get("JADE_RUNTIME_OUTPUT") or not ev["env"].get("JADE_SUBMISSION_GROUP"):
                     probs.append(("C16", "hook-env", "node setup without the documented environment", i))
+                elif node_group.get(nd) is not None and ev["env"]["JADE_SUBMISSION_GROUP"] != node_group[nd]:
+                    probs.append(("C16", "hook-env-group", f"node setup on {nd} got JADE_SUBMISSION_GROUP={ev['env']['JADE_SUBMISSION_GROUP']} but the batch belongs to group {node_group[nd]}", i))
             elif w == "node_teardown":
                 nd = ev.get("node")
                 node_teardown[nd] = node_teardown.get(nd, 0) + 1
@@ -431,6 +439,8 @@ def py_monitors(sc, trace, final=None):
                     probs.append(("C16", "node-teardown-twice", f"node teardown ran twice on {nd}", i))
                 if not ev["env"].get("JADE_RUNTIME_OUTPUT") or not ev["env"].get("JADE_SUBMISSION_GROUP"):
                     probs.append(("C16", "hook-env", "node teardown without the documented environment", i))
+                elif node_group.get(nd) is not None and ev["env"]["JADE_SUBMISSION_GROUP"] != node_group[nd]:
+                    probs.append(("C16", "hook-env-group", f"node teardown on {nd} got JADE_SUBMISSION_GROUP={ev['env']['JADE_SUBMISSION_GROUP']} but the batch belongs to group {node_group[nd]}", i))
         elif k == "sub_cancel":
             n = ev["job"]
             if n in rows:
@@ -496,6 +506,23 @@ def apply_action(vc, act, rng):
     if do == "squeuefail":
         vc.squeue_failures += 1
         return "squeuefail"
+    if do == "locktimeout" and act.get("who") == "event_actor":
+        vc.pending_lock_timeout.add(act.get("_pid"))
+        return "locktimeout:pid%s" % act.get("_pid")
+    if do == "suspend":
+        ids = [i for i, b in vc.hpc.items() if b["state"] == "RUNNING"]
+        if not ids:
+            return None
+        i = ids[rng.randrange(len(ids))]
+        vc.hpc[i]["state"] = "SUSPENDED"
+        vc.trace.append({"k": "batch_suspended", "p": 0, "id": i})
+        return "suspend:" + i
+    if do == "resume":
+        for i, b in vc.hpc.items():
+            if b["state"] == "SUSPENDED":
+                b["state"] = "RUNNING"
+                vc.trace.append({"k": "batch_resumed", "p": 0, "id": i})
+        return "resume"
     if do == "locktimeout":
         cands = [a for a in _alive(vc) if a.waiting_lock]
         if not cands:
@@ -532,7 +559,7 @@ def run_plan(sc, seed, plan=None):
                 def hit():
                     cnt = 0
                     for ev in vc.trace[n0:]:
-                        if ev["k"] == w["k"] and str(ev.get("lock", "")).startswith(w.get("lock_startswith", "")) \
+                        if ev["k"] == w["k"] and str(ev.get(w.get("field", "lock"), "")).startswith(w.get("lock_startswith", w.get("startswith", ""))) \
                                 and (w.get("node") is None or (ev.get("node") is not None) == w["node"]):
                             cnt += 1
                             if cnt >= w.get("n", 1):
@@ -546,6 +573,9 @@ def run_plan(sc, seed, plan=None):
             applied.append(lab)
             vc.trace.append({"k": "action", "p": 0, "do": act["do"], "label": lab})
         vc.run()
+        if any(b["state"] == "SUSPENDED" for b in vc.hpc.values()):      # never leave a batch suspended forever
+            apply_action(vc, {"do": "resume"}, rng)
+            vc.run()
         rec = 0
         idle = 0
         while rec < plan.get("recover", 14):
